@@ -16,7 +16,8 @@ cursorvars == <<chain, idx, stack, log, crash, ab>>
 S == Cast(Len(chain))                 \* s := int8(len(c.handlers))
 Top == stack[Len(stack)]
 Pop == SubSeq(stack, 1, Len(stack) - 1)
-LFrame == [k |-> "L"]
+LFrame == [k |-> "L", catch |-> FALSE]
+CatchFrame == [k |-> "L", catch |-> TRUE]        \* the Next() loop started by PanicsHandler, under its deferred recover
 HFrame(h) == [k |-> "H", h |-> h, pc |-> 1]
 Probe == idx >= AbortIdx              \* IsAborted()
 
@@ -53,7 +54,12 @@ HStep ==
             [] op[1] \in {"abort", "abortStatus"} -> idx' = AbortIdx /\ ab' = TRUE /\ stack' = adv /\ UNCHANGED <<log, crash, chain>>
             [] op[1] = "next"  -> /\ idx' = (IF D_NextCreeps THEN Wrap(idx + 1) ELSE idx)
                                   /\ stack' = Append(adv, LFrame) /\ UNCHANGED <<log, crash, chain, ab>>
-            [] op[1] = "panic" -> stack' = <<>> /\ UNCHANGED <<idx, log, crash, chain, ab>>
+            [] op[1] = "catchnext" -> /\ idx' = (IF D_NextCreeps THEN Wrap(idx + 1) ELSE idx)
+                                      /\ stack' = Append(adv, CatchFrame) /\ UNCHANGED <<log, crash, chain, ab>>
+            [] op[1] = "panic" ->   \* unwind to the innermost recovering frame (or out of ServeHTTP); the cursor is not touched
+                 LET cs == { i \in 1..Len(stack) : stack[i].k = "L" /\ stack[i].catch } IN
+                 /\ stack' = IF cs = {} THEN <<>> ELSE SubSeq(stack, 1, (CHOOSE i \in cs : \A j \in cs : j <= i) - 1)
+                 /\ UNCHANGED <<idx, log, crash, chain, ab>>
             [] OTHER           -> stack' = adv /\ UNCHANGED <<idx, log, crash, chain, ab>>
 
 CursorNext == LoopHead \/ HStep
